@@ -487,9 +487,15 @@ func generatedInput(c *Ctx, l *core.Lane) (data []byte, name string, fmap []gen.
 			parts = [][]byte{enc.Bytes}
 			emap = enc.Map
 		}
+		if y := c.L("gen:y"); kind == gen.CHEIF && y.Chance(1, 6) {
+			// HEIF whose item-location box is the last thing in meta and ends inside its last entry
+			h := gen.DrawHEIFOpts(l, parts[0], l.Bool(), gen.HEIFOpts{IlocLastCut: 1 + y.Intn(12)})
+			fmap = append(fmap, h.Map...)
+			return h.Bytes, "gen:HEIF", fmap
+		}
 		if kind == gen.CHEIF && x.Chance(1, 3) {
 			// HEIF with redundant iloc boxes and a long brand list
-			h := gen.DrawHEIFOpts(l, parts[0], l.Bool(), gen.HEIFOpts{ExtraIloc: 1 + x.Intn(6), Brands: x.Intn(12), InfeVariants: x.Intn(5)})
+			h := gen.DrawHEIFOpts(l, parts[0], l.Bool(), gen.HEIFOpts{ExtraIloc: 1 + x.Intn(6), Brands: x.Intn(12), InfeVariants: x.Intn(5), InfeVersions: infeVersions(c.L("gen:y"))})
 			fmap = append(fmap, h.Map...)
 			for _, m := range emap {
 				fmap = append(fmap, gen.FieldSpan{Name: m.Name, Off: m.Off + h.TIFFOff, Len: m.Len})
@@ -554,4 +560,13 @@ func structFlips(l *core.Lane, data []byte, fmap []gen.FieldSpan, desc func(stri
 		}
 	}
 	return out
+}
+
+// infeVersions (side lane): item-info versions for the further entries of a generated HEIF file;
+// zero = all version 2.
+func infeVersions(y *core.Lane) uint64 {
+	if y.Bool() {
+		return y.U64() | 1<<62
+	}
+	return 0
 }
